@@ -7,7 +7,9 @@ import os
 import random
 import re
 import shutil
+import signal
 import stat
+import traceback
 
 from ..core import HarnessError, h64
 from ..gen import c17_gen as G
@@ -394,7 +396,31 @@ def prepare(env, step):
     return True
 
 
+class OpCpuLimit(BaseException):
+    """The operation used more CPU time than any legitimate checkout of a handful of files needs."""
+
+
+OP_CPU_SECONDS = 6.0
+
+
+def _on_sigprof(signum, frame):
+    raise OpCpuLimit()
+
+
 def perform(env, step):
+    """Run one operation under a CPU-time (not wall-clock) limit: dulwich walks that follow symlink cycles
+    (a -> ".", hooks -> "..") are exponential and would never finish.  Hitting the limit is an outcome like a
+    refusal; confinement is judged on whatever was written until then."""
+    old = signal.signal(signal.SIGPROF, _on_sigprof)
+    signal.setitimer(signal.ITIMER_PROF, OP_CPU_SECONDS, 0.5)
+    try:
+        _perform(env, step)
+    finally:
+        signal.setitimer(signal.ITIMER_PROF, 0)
+        signal.signal(signal.SIGPROF, old)
+
+
+def _perform(env, step):
     """Call dulwich.  Everything here is the code under test driven through its public API."""
     from dulwich import porcelain
 
@@ -589,6 +615,10 @@ def execute(ctx, case, check="seq", record=True):
                 msg = str(e)
                 if outcome in REFUSAL_TYPES or "refusing" in msg or "outside repository" in msg or "invalid path" in msg:
                     refused_path = True
+            except OpCpuLimit as e:
+                outcome = "cpu-limit"
+                if os.environ.get("C17_DEBUG"):
+                    print("cpu-limit in", step, "".join(traceback.format_tb(e.__traceback__)[-6:]), flush=True)
             except BaseException as e:
                 if type(e).__name__ != "PanicException":
                     raise
